@@ -598,3 +598,95 @@ for _p in range(4):
         body_k7_init_false(_p, 2, 1, 2)
     except Exception:
         pass
+
+
+# ------------------------------------------------------------------ field types that compare equal but convert differently; a hook that assigns
+
+import decimal as _dec
+
+
+class LA(PaneBase):
+    text: t.Union[_dec.Decimal, str] = ''
+    xs: list[t.Union[int, float]] = field(default_factory=list)        # (builtin alias: typing would intern the two orders)
+
+
+class LB(PaneBase):
+    text: t.Union[str, _dec.Decimal] = ''
+    xs: list[t.Union[float, int]] = field(default_factory=list)
+
+
+@obligation(pre="0 <= first <= 1 and -1 <= i <= 7", witnesses=(0,), timeout=200)
+def body_ctor_type_history(first: int, i: int) -> int:
+    """two classes whose field types are equal-comparing unions in opposite orders, constructed one after the other (either order): each constructor converts like its own from_data"""
+    import hlib as _h
+    i = cint(i)
+    order = (LA, LB) if first == 0 else (LB, LA)
+    with _h.untraced():          # (a memo keyed on type equality would be a functools cache, which the tracer bypasses)
+        for cls in order:
+            a = cls(text='1.50', xs=[1])
+            b = cls.from_data({'text': '1.50', 'xs': [1]})
+            if not eqv(a, b) or not (a == b):
+                return 2
+    a = LA(text='1.50', xs=[i])
+    b = LB(text='1.50', xs=[i])
+    if not eqv(a.text, _dec.Decimal('1.50')) or not eqv(b.text, '1.50'):
+        return 1
+    if type(a.xs[0]) is not int or type(b.xs[0]) is not float:
+        return 1
+    return 0
+
+
+class K8(PaneBase, frozen=False, in_format=('struct', 'tuple')):
+    """a mutable class whose validation hook NORMALISES by plain assignment"""
+    lo: float = 0.0
+    hi: float = 1.0
+
+    def __post_init__(self):
+        HOOK[0] += 1
+        if self.lo > self.hi:
+            self.lo, self.hi = self.hi, self.lo
+
+
+make_converter(K8)
+
+
+@obligation(pre="0 <= path <= 2 and -2 <= i <= 2 and -2 <= j <= 2", witnesses=(0,), timeout=200)
+def body_k8_hook_assigns(path: int, i: int, j: int) -> int:
+    """K8 (frozen=False, __post_init__ assigns fields): constructor, mapping data and sequence data build equal instances; the hook runs once per instance and never escapes as anything but ConvertError on data paths"""
+    lo, hi = cint(i), cint(j)
+    h0 = HOOK[0]
+    try:
+        a = K8(lo=lo, hi=hi)
+        if path == 0:
+            b = K8(lo, hi)
+        elif path == 1:
+            b = K8.from_data({'lo': lo, 'hi': hi})
+        else:
+            b = K8.from_data([lo, hi])
+    except ConvertError:
+        return 2
+    except Exception as e:
+        if crosshair_exc(e):
+            raise
+        return 10
+    if HOOK[0] - h0 != 2:
+        return 8
+    if not eqv(a, b) or not (a == b):
+        return 2
+    want_lo, want_hi = (float(lo), float(hi)) if lo <= hi else (float(hi), float(lo))
+    if not eqv(a.lo, want_lo) or not eqv(a.hi, want_hi):
+        return 4
+    return 0
+
+
+for _a in ((0, 1), (1, 1)):
+    try:
+        body_ctor_type_history(*_a)
+    except Exception:
+        pass
+for _p in range(3):
+    for _a in ((1, 2), (2, 1)):
+        try:
+            body_k8_hook_assigns(_p, *_a)
+        except Exception:
+            pass
